@@ -11,7 +11,7 @@ from mpservice.multiprocessing import Process
 from mpservice.multiprocessing.remote_exception import EnsembleError, RemoteException
 from mpservice.threading import Thread
 
-from ._worker import Worker, _SimpleProcessQueue, _SimpleThreadQueue
+from ._worker import Worker, _remote_exception, _SimpleProcessQueue, _SimpleThreadQueue
 
 logger = logging.getLogger(__name__)
 
@@ -589,7 +589,7 @@ class EnsembleServlet(Servlet):
 
             uid, x = z
             if isinstance(x, BaseException):
-                x = RemoteException(x)
+                x = _remote_exception(x)
             if isinstance(x, RemoteException):
                 # short circuit exception to the output queue
                 qout.put((uid, x))
@@ -640,7 +640,7 @@ class EnsembleServlet(Servlet):
                         continue
 
                     if isinstance(y, BaseException):
-                        y = RemoteException(y)
+                        y = _remote_exception(y)
 
                     z['y'][idx] = y
                     z['n'] += 1
@@ -813,7 +813,7 @@ class SwitchServlet(Servlet):
 
             uid, x = v
             if isinstance(x, BaseException):
-                x = RemoteException(x)
+                x = _remote_exception(x)
             if isinstance(x, RemoteException):
                 # short circuit exception to the output queue
                 qout.put((uid, x))
